@@ -17,6 +17,28 @@ def branch_formats(func, witness_branch):
     raise LookupError('witness branch not found')
 
 
+def prune_branch(raw, const_name):
+    """the `(hashtype & <mask>) == <const_name>` branch of RawSignatureHash:
+    (mask literal, the literal assigned to `.nSequence` inside the branch)"""
+    for n in ast.walk(raw):
+        if not isinstance(n, ast.If):
+            continue
+        t = n.test
+        if isinstance(t, ast.Compare) and len(t.ops) == 1 and isinstance(t.ops[0], ast.Eq) and \
+                isinstance(t.comparators[0], ast.Name) and t.comparators[0].id == const_name and \
+                isinstance(t.left, ast.BinOp) and isinstance(t.left.op, ast.BitAnd) and \
+                isinstance(t.left.left, ast.Name) and t.left.left.id == 'hashtype' and \
+                isinstance(t.left.right, ast.Constant) and isinstance(t.left.right.value, int):
+            seqs = [a.value.value for b in n.body for a in ast.walk(b)
+                    if isinstance(a, ast.Assign) and len(a.targets) == 1 and isinstance(a.targets[0], ast.Attribute)
+                    and a.targets[0].attr == 'nSequence' and isinstance(a.value, ast.Constant)
+                    and isinstance(a.value.value, int)]
+            if len(seqs) != 1:
+                raise LookupError('RawSignatureHash: %s branch: expected one `.nSequence = <literal>`' % const_name)
+            return t.left.right.value, seqs[0]
+    raise LookupError('RawSignatureHash: no `(hashtype & <literal>) == %s` branch' % const_name)
+
+
 def gen_sighash(api):
     import bitcoin.core.script as S
     tree = api.src_tree('bitcoin/core/script.py')
@@ -28,8 +50,11 @@ def gen_sighash(api):
     raw = api.find_func(tree, 'RawSignatureHash')
     out.append('Definition HASH_ONE : bytes := %s.' % api.byteslit(api.literal_assigned(raw, 'HASH_ONE')))
     out.append('Definition fmt_RawSignatureHash : list fmt := [%s].' % '; '.join(extract_C01.formats(raw)))
-    ints = sorted(set(api.int_literals(raw)))
-    out.append('Definition lits_RawSignatureHash : list Z := %s.' % api.zlist(ints))
+    # the two pruning branches: their mask literal and the literal the other sequences are set to
+    for nm, cn in (('none', 'SIGHASH_NONE'), ('single', 'SIGHASH_SINGLE')):
+        mask, seq = prune_branch(raw, cn)
+        out.append('Definition RSH_mask_%s : Z := %s.' % (nm, api.zlit(mask)))
+        out.append('Definition RSH_seq_%s : Z := %s.' % (nm, api.zlit(seq)))
     # the filler outputs of SIGHASH_SINGLE are `bitcoin.core.CTxOut()`: the constructor defaults, by introspection
     import bitcoin.core as C
     calls = [n for n in ast.walk(raw) if isinstance(n, ast.Call) and isinstance(n.func, ast.Attribute)
